@@ -1,6 +1,7 @@
 package main
 
 import (
+	"go/ast"
 	"fmt"
 	"go/constant"
 	"go/token"
@@ -1482,4 +1483,37 @@ func (p *Program) helperPostFacts(at ssa.Instruction) []Fact {
 		out = append(out, common...)
 	}
 	return out
+}
+
+// apiEntries: the functions of fn's package through which fn is reached from outside - fn itself when it is
+// exported, a Reset method or a constructor (New*); otherwise the entries of its static same-package callers
+// (depth <= 3). A private helper shared by NewReader and Reset is thereby judged as part of both.
+func (p *Program) apiEntries(fn *ssa.Function) []*ssa.Function {
+	isEntry := func(f *ssa.Function) bool {
+		return ast.IsExported(f.Name()) || f.Name() == "Reset" || strings.HasPrefix(f.Name(), "New")
+	}
+	var walk func(f *ssa.Function, depth int, seen map[*ssa.Function]bool) []*ssa.Function
+	walk = func(f *ssa.Function, depth int, seen map[*ssa.Function]bool) []*ssa.Function {
+		if isEntry(f) || depth > 3 || seen[f] {
+			return []*ssa.Function{f}
+		}
+		seen[f] = true
+		var out []*ssa.Function
+		for _, g := range p.Funcs() {
+			if g.Pkg != f.Pkg || g == f {
+				continue
+			}
+			for _, c := range allCalls(g) {
+				if c.Common().StaticCallee() == f {
+					out = append(out, walk(g, depth+1, seen)...)
+					break
+				}
+			}
+		}
+		if len(out) == 0 {
+			return []*ssa.Function{f}
+		}
+		return out
+	}
+	return walk(fn, 0, map[*ssa.Function]bool{})
 }
